@@ -1477,6 +1477,12 @@ _ret_:
         movdqa  [keys + i*16], xmm0
 %assign i (i + 1)
 %endrep
+        ; Clear the tweak values (16*8 bytes): they are E(k2, tweak) and its multiples
+%assign i 0
+%rep 8
+        movdqa  [TW + i*16], xmm0
+%assign i (i + 1)
+%endrep
 %endif
 
 	mov     rbx, [_gpr + 8*0]
